@@ -8,6 +8,8 @@ import (
 	"encoding/json"
 	"flag"
 	"fmt"
+	"io"
+	"log"
 	"math/rand"
 	"os"
 	"strconv"
@@ -25,6 +27,7 @@ func main() {
 	ids := flag.String("ids", "", "comma list of generated case ids to execute (replay)")
 	symFile := flag.String("sym", "", "execute the symbolic cases (JSON list, from ISAScen behaviours) of this file")
 	flag.Parse()
+	log.SetOutput(io.Discard) // the ALUs report unimplemented cases through log.Panicf; the panic is recorded
 
 	var cases []*Case
 	if *symFile != "" {
@@ -65,9 +68,6 @@ func main() {
 			g.genC06(*scale, om)
 		} else {
 			g.genC03(*scale, om)
-			if om == nil {
-				g.genSpecialSrc(*scale)
-			}
 		}
 		cases = g.cases
 	}
